@@ -1,0 +1,51 @@
+//go:build verif
+
+// C14 (value-log truncation keeps every value of the retained transactions): the tombstone computation of
+// (*ImmuStore).TruncateUptoTx. Owner: the integrator. Unit list: /verif/props/own/own-c14.json.
+package store
+
+// ghost_firstHas / ghost_firstVLog / ghost_firstOff: "transaction id has a first entry", and the value-log id / in-log
+// offset decoded from that entry's offset word AS STORED IN THE TRANSACTION LOG. Uninterpreted (ghost) functions of the
+// identity of the store and of the id, DEFINED by the postcondition of readTxOffsetAt(id, false, 1) below: that
+// postcondition is an ASSUMED contract (it is not checked against the body, which reads the disk); what it assumes is
+// that reading the first entry of a committed transaction is deterministic (C02: committed transactions are immutable).
+func ghost_firstHas(s *ImmuStore, id uint64) bool   { return false }
+func ghost_firstVLog(s *ImmuStore, id uint64) byte  { return 0 }
+func ghost_firstOff(s *ImmuStore, id uint64) int64  { return 0 }
+
+//@ func (*ImmuStore).readTxOffsetAt
+//@   ensures shape: (r1 == nil) == (r0 != nil)
+//@   ensures def_has: index == 1 && !allowPrecommitted && r1 == nil ==> ghost_firstHas(s, txID)
+//@   ensures def_none: index == 1 && !allowPrecommitted && isErr(r1, ErrTxEntryIndexOutOfRange) ==> !ghost_firstHas(s, txID)
+//@   ensures def_vlog: index == 1 && !allowPrecommitted && r1 == nil ==> spec_vlogOf(r0.vOff) == ghost_firstVLog(s, txID)
+//@   ensures def_off: index == 1 && !allowPrecommitted && r1 == nil ==> spec_offOf(r0.vOff) == ghost_firstOff(s, txID)
+//@   assigns internal
+
+// the two components decodeOffset returns (same expressions as its body; decodeOffset itself is inlined)
+func spec_vlogOf(offset int64) byte  { return byte(offset >> 56) }
+func spec_offOf(offset int64) int64 { return offset & ^(0xff << 55) }
+
+//@ func (*TxEntry).VOff
+//@   ensures def: r0 == e.vOff
+//@   assigns nothing
+
+// TruncateUptoTx: every offset handed to DiscardUpto for value log v is at most the first-entry offset of EVERY
+// transaction in [minTxID, s.committedTxID as of the call] whose first entry lies in v (`assertat`, stated at the DiscardUpto call), because
+//   loop 2 (forward scan) keeps: for every j' already scanned with a first entry in v, tombstones[v] <= its offset
+//   (the scan lowers tombstones[v], never raises it; the backward scan only inserts), and ends with j == maxTxID + 1;
+//   loop 3 does not write the map.
+// spec_anyTx() is a rigid logical variable: the clauses hold for every transaction id.
+func spec_anyTx() uint64 { return spec_anyTx() }
+
+//@ func (*ImmuStore).TruncateUptoTx
+//@   requires s.logger != nil
+//@   loop 1 assigns tombstones
+//@   loop 2 assigns tombstones
+//@   loop 2 invariant covered: (minTxID <= spec_anyTx() && spec_anyTx() < j && ghost_firstHas(s, spec_anyTx()) && has(tombstones, ghost_firstVLog(s, spec_anyTx()))
+//@         ==> tombstones[ghost_firstVLog(s, spec_anyTx())] <= ghost_firstOff(s, spec_anyTx()))
+//@   loop 3 assigns merr
+//@   loop 3 invariant own: merr != nil && loopfresh(merr.errors)
+//@   loop 3 invariant covered_all: minTxID <= spec_anyTx() && spec_anyTx() <= old(s.committedTxID) && ghost_firstHas(s, spec_anyTx()) && has(tombstones, ghost_firstVLog(s, spec_anyTx()))
+//@         ==> tombstones[ghost_firstVLog(s, spec_anyTx())] <= ghost_firstOff(s, spec_anyTx())
+//@   assertat vlog.DiscardUpto below_retained: minTxID <= spec_anyTx() && spec_anyTx() <= old(s.committedTxID) && ghost_firstHas(s, spec_anyTx()) && ghost_firstVLog(s, spec_anyTx()) == vLogID
+//@         ==> offset <= ghost_firstOff(s, spec_anyTx())
